@@ -283,6 +283,84 @@ const char *type_to_string(Type type) {
 /* Forward declarations */
 static Type check_statement(TypeChecker *tc, ASTNode *node);
 
+/* Is there a 'break' in this statement that belongs to the loop it is the body of? */
+static bool statement_contains_break(ASTNode *stmt) {
+    if (!stmt) return false;
+    switch (stmt->type) {
+        case AST_BREAK:
+            return true;
+        case AST_BLOCK:
+            for (int i = 0; i < stmt->as.block.count; i++) {
+                if (statement_contains_break(stmt->as.block.statements[i])) return true;
+            }
+            return false;
+        case AST_UNSAFE_BLOCK:
+            for (int i = 0; i < stmt->as.unsafe_block.count; i++) {
+                if (statement_contains_break(stmt->as.unsafe_block.statements[i])) return true;
+            }
+            return false;
+        case AST_IF:
+            return statement_contains_break(stmt->as.if_stmt.then_branch) ||
+                   statement_contains_break(stmt->as.if_stmt.else_branch);
+        case AST_MATCH:
+            for (int i = 0; i < stmt->as.match_expr.arm_count; i++) {
+                if (statement_contains_break(stmt->as.match_expr.arm_bodies[i])) return true;
+            }
+            return false;
+        default:
+            return false;     /* a nested loop's break is its own */
+    }
+}
+
+/* Does control always leave the function through a 'return' when this statement has run?
+ * (The parser has already turned a tail expression into a return.) */
+static bool statement_always_returns(ASTNode *stmt) {
+    if (!stmt) return false;
+    switch (stmt->type) {
+        case AST_RETURN:
+            return true;
+        case AST_BLOCK:
+            for (int i = 0; i < stmt->as.block.count; i++) {
+                if (statement_always_returns(stmt->as.block.statements[i])) return true;
+            }
+            return false;
+        case AST_UNSAFE_BLOCK:
+            for (int i = 0; i < stmt->as.unsafe_block.count; i++) {
+                if (statement_always_returns(stmt->as.unsafe_block.statements[i])) return true;
+            }
+            return false;
+        case AST_IF:
+            return stmt->as.if_stmt.else_branch &&
+                   statement_always_returns(stmt->as.if_stmt.then_branch) &&
+                   statement_always_returns(stmt->as.if_stmt.else_branch);
+        case AST_MATCH:
+            if (stmt->as.match_expr.arm_count == 0) return false;
+            for (int i = 0; i < stmt->as.match_expr.arm_count; i++) {
+                if (!statement_always_returns(stmt->as.match_expr.arm_bodies[i])) return false;
+            }
+            return true;
+        case AST_WHILE:
+            /* 'while true' without a break only ends through a return inside it */
+            return stmt->as.while_stmt.condition &&
+                   stmt->as.while_stmt.condition->type == AST_BOOL &&
+                   stmt->as.while_stmt.condition->as.bool_val &&
+                   !statement_contains_break(stmt->as.while_stmt.body);
+        default:
+            return false;
+    }
+}
+
+/* A function that declares a result must return one on every path */
+static void check_function_returns(TypeChecker *tc, ASTNode *fn) {
+    if (fn->as.function.is_extern || !fn->as.function.body) return;
+    if (fn->as.function.return_type == TYPE_VOID) return;
+    if (!statement_always_returns(fn->as.function.body)) {
+        fprintf(stderr, "Error at line %d, column %d: Function '%s' does not return a value on every path\n",
+                fn->line, fn->column, fn->as.function.name);
+        tc->has_error = true;
+    }
+}
+
 /* The symbol table keeps every local for the later compilation stages, so a scope is not
  * ended by truncating it: the symbols declared since 'from' are marked instead, and name
  * lookups skip marked symbols while the program is being type checked. */
@@ -3925,6 +4003,7 @@ g_checking_for_range = (stmt->as.for_stmt.range_expr &&
                     tc->current_function_return_type = stmt->as.function.return_type;
                     tc->current_function_return_struct_name = stmt->as.function.return_struct_type_name;
                     check_statement(tc, stmt->as.function.body);
+                    check_function_returns(tc, stmt);
                     close_scope(tc->env, nested_scope_start);
                     tc->current_function_return_type = saved_ret;
                     tc->current_function_return_struct_name = saved_ret_struct;
@@ -5839,6 +5918,7 @@ sdef.is_pub = item->as.struct_def.is_pub;            /* Propagate public visibil
 
             /* Check function body */
             check_statement(&tc, item->as.function.body);
+            check_function_returns(&tc, item);
 
             /* Check for unused variables before leaving scope */
             check_unused_variables(&tc, saved_symbol_count);
@@ -6536,6 +6616,7 @@ sdef.is_pub = item->as.struct_def.is_pub;            /* Propagate public visibil
 
             /* Check function body */
             check_statement(&tc, item->as.function.body);
+            check_function_returns(&tc, item);
 
             /* Check for unused variables before leaving scope */
             check_unused_variables(&tc, saved_symbol_count);
